@@ -17,13 +17,14 @@ variable {α : Type} [Field α]
 
 /-- The regenerated branch structure of `functions/_solve.py::_solve`, `functions/_inv_quad.py::_solve`, the
 CG stopping rule / iteration bound, the preconditioner switch and the table of classes overriding a
-solve-related hook are exactly the ones `selectSolve`, `selectInvQuad`, `trace` were written against. -/
+solve-related hook, and which linalg-dtype setting each operator method reads, are exactly the ones `selectSolve`, `selectInvQuad`, `trace` were written against. -/
 theorem source_facts_mirrored :
     Generated.C04.solveTests = Expected.solveTests ∧ Generated.C04.solveReturns = Expected.solveReturns ∧
     Generated.C04.invQuadTests = Expected.invQuadTests ∧ Generated.C04.invQuadReturns = Expected.invQuadReturns ∧
     Generated.C04.cgStopTests = Expected.cgStopTests ∧ Generated.C04.cgNIter = Expected.cgNIter ∧
     Generated.C04.cgEps = Expected.cgEps ∧ Generated.C04.cgStopUpdatingAfter = Expected.cgStopUpdatingAfter ∧
-    Generated.C04.precondSwitch = Expected.precondSwitch ∧ Generated.C04.hookTable = Expected.hookTable := by
+    Generated.C04.precondSwitch = Expected.precondSwitch ∧ Generated.C04.hookTable = Expected.hookTable ∧
+    Generated.C04.linalgDtypeReads = Expected.linalgDtypeReads := by
   decide +kernel
 
 /-- Under today's default settings every operator that is not Chol/Triangular and has at most
